@@ -1,4 +1,4 @@
-CONSTANTS Enforce <- TraceEnforce  Configs = {}  Requests = {}  Opcodes = {}
+CONSTANTS Enforce <- TraceEnforce  Configs = {}  Requests = {}  Opcodes = {}  LenClasses = {}
 SPECIFICATION TSpec
 INVARIANTS TypeOK
 CHECK_DEADLOCK FALSE
